@@ -262,6 +262,9 @@ var allowedFuncs = map[string]bool{
 }
 
 func deniedPkg(path string) bool {
+	if path == "net/url" || path == "net/http" || path == "net/textproto" {
+		return false
+	}
 	for _, p := range deniedPrefixes {
 		if path == p || strings.HasPrefix(path, p+"/") {
 			return true
